@@ -62,6 +62,18 @@ func labClasses(res *lab.Result) []string {
 	if res.Wedged {
 		cls = append(cls, "wedged")
 	}
+	// the DLQ refused a record and accepted a later one (partial dead-letter write)
+	refused := map[int]bool{}
+	for _, e := range res.Events {
+		if e.Kind == lab.EvDstAck && lab.IsDLQ(e.Comp) {
+			if !e.OK {
+				refused[e.Inst] = true
+			} else if refused[e.Inst] {
+				cls = append(cls, "dlq-accepts-after-refusing")
+				break
+			}
+		}
+	}
 	return cls
 }
 
